@@ -116,7 +116,26 @@ def run(sc, *, keep_log=False) -> Obs:
         pending_msg_hooks = {"n": 0}
 
         # ---- addon behaviour: runs inside the FIRST addon --------------------------------
+        LATENCY_HOOKS = (f"{proto}_start", "server_connect", "server_connected")
+
         def policy(name, data):
+            if name in LATENCY_HOOKS:
+                # rules may make these hooks slow (an async addon); nothing is edited here
+                n = counters.get(name, 0)
+                counters[name] = n + 1
+                rule = next((r for r in rules if r.get("hook") == name and r.get("nth", 0) == n), None)
+                lat = (rule.get("latency", 0) or 0) if rule else 0
+                if lat <= 0:
+                    return None
+                obs.applied.append((name, n, lat, None))
+
+                async def slow():
+                    pending_msg_hooks["n"] += 1
+                    try:
+                        await asyncio.sleep(lat)
+                    finally:
+                        pending_msg_hooks["n"] -= 1
+                return slow()
             if name != msg_hook:
                 return None
             f = data
